@@ -152,6 +152,40 @@ func c09b(c *Ctx) {
 			if tf != nil {
 				lit = tf["Literal"]
 			}
+			// the recorded type must be decided within this argument: "" / the prefix token of this
+			// very string / the type returned by format(); never a value carried over from an
+			// earlier argument (loop-carried)
+			for _, ref := range *a.Referrers() {
+				fa, ok := ref.(*ssa.FieldAddr)
+				if !ok || fieldName(fa.X.Type(), fa.Field) != "stringType" {
+					continue
+				}
+				for _, r2 := range *fa.Referrers() {
+					stt, ok := r2.(*ssa.Store)
+					if !ok || stt.Addr != ssa.Value(fa) {
+						continue
+					}
+					carried := false
+					var walk func(v ssa.Value, seen map[ssa.Value]bool)
+					walk = func(v ssa.Value, seen map[ssa.Value]bool) {
+						if seen[v] {
+							return
+						}
+						seen[v] = true
+						if ph, isPhi := v.(*ssa.Phi); isPhi {
+							if isLoopHeader(ph.Block()) {
+								carried = true
+								return
+							}
+							for _, e := range ph.Edges {
+								walk(e, seen)
+							}
+						}
+					}
+					walk(stt.Val, map[ssa.Value]bool{})
+					c.Check(!carried, key+"/type-not-carried-over", pos, "the string type recorded for an argument is determined by that argument alone", "the string type recorded for this inline text can be a value carried over from an earlier argument of the same command (it is merged at the head of the argument loop): a plain string after a typed one would inherit its type")
+				}
+			}
 			okFmt := strings.HasPrefix(lit, "(*parser.Parser).formatTextTerminator($0,") && strings.HasSuffix(lit, ","+st+")")
 			c.Check(okFmt, key+"/terminated-with-own-type", pos, "recorded text = formatTextTerminator(content, recorded string type)", "the recorded text literal is "+pretty(lit)+" while the recorded string type is "+pretty(st)+": the terminator must be applied to the content with exactly that type before the text is recorded (the dedup key is the terminated text)")
 			if okFmt && !strings.Contains(lit, "parseFormatStringOperator") {
@@ -160,7 +194,7 @@ func c09b(c *Ctx) {
 				c.Check(inner == tb+".Literal", key+"/content-is-token", pos, "content is the string token's own literal", "terminated content "+pretty(inner)+" is not the literal of the recorded token "+pretty(tb))
 			}
 		})
-		c.Check(n == 3, "parseCommandStatement/inline-text-sites", c.W.FuncPos(fn), "three inline text arms", fmt.Sprintf("found %d inline text records, expected 3", n))
+		c.Check(n >= 2, "parseCommandStatement/inline-text-sites", c.W.FuncPos(fn), "inline text arms (format, string, typed string)", fmt.Sprintf("found %d inline text records, expected at least 2", n))
 	}
 	// (2) parseTextValue: returned (value, type)
 	if fn := c.Fn("parser.Parser.parseTextValue"); fn != nil {
